@@ -52,45 +52,59 @@ Definition mk_cantunwind (fn : Z) : eh_out := (* CannotUnwindEHABIEntry *)
 (* EHABIInfo.num_entry: sh_size // EHABI_INDEX_ENTRY_SIZE *)
 Definition num_entry (sh_size : Z) : Z := sh_size / gen_ehabi_index_entry_size.
 
-(* EHABIInfo.get_entry(n) *)
+(* EHABIInfo.get_entry(n), third part: the entry points into .ARM.extab
+     eh_index_data = struct_parse(EH_table_struct, stream, eh_table_offset); word0 = ...['word0'] *)
+Definition decode_table_entry (img : list Z) (le : bool) (function_offset eh_table_offset : Z)
+  : res eh_out :=
+  do t0 <- seek_chk img eh_table_offset;
+  do (word0, _) <- p_u32 le t0;
+  if Z.land word0 0x80000000 =? 0 then
+    (* generic model *)
+    Ok (mk_entry function_offset (Some (arm_expand_prel31 word0 eh_table_offset)) None None)
+  else
+    (* arm compact model; highest half must be 0b1000 *)
+    if negb (Z.land word0 0x70000000 =? 0) then Ok mk_corrupt
+    else
+      let per_index := Z.land (Z.shiftr word0 24) 0x7f in
+      if per_index =? 0 then
+        let opcode := [Z.shiftr (Z.land word0 0xFF0000) 16; Z.shiftr (Z.land word0 0xFF00) 8;
+                       Z.land word0 0xFF] in
+        Ok (mk_entry function_offset (Some per_index) (Some opcode) None)
+      else if (per_index =? 1) || (per_index =? 2) then
+        let more_word := Z.land (Z.shiftr word0 16) 0xff in
+        let opcode := [Z.land (Z.shiftr word0 8) 0xff; Z.land (Z.shiftr word0 0) 0xff] in
+        (* self._arm_idx_section.stream.seek(eh_table_offset + 4) *)
+        do t4 <- seek_chk img (eh_table_offset + 4);
+        do more <- more_words le (Z.to_nat more_word) t4;
+        Ok (mk_entry function_offset (Some per_index) (Some (opcode ++ more)) (Some eh_table_offset))
+      else Ok mk_corrupt.
+
+(* EHABIInfo.get_entry(n), second part: classification of (word0, word1) read at
+   place = section_offset() + n * EHABI_INDEX_ENTRY_SIZE *)
+Definition decode_index_words (img : list Z) (le : bool) (place word0 word1 : Z) : res eh_out :=
+  if negb (Z.land word0 0x80000000 =? 0) then Ok mk_corrupt else
+  let function_offset := arm_expand_prel31 word0 place in
+  if word1 =? 1 then Ok (mk_cantunwind function_offset)       (* 0x1 means cannot unwind *)
+  else if Z.land word1 0x80000000 =? 0 then
+    (* highest bit is zero, point to .ARM.extab data *)
+    let eh_table_offset := arm_expand_prel31 word1 (place + 4) in
+    decode_table_entry img le function_offset eh_table_offset
+  else
+    (* highest bit is one, compact model must be 0 *)
+    if negb (Z.land word1 0x7f000000 =? 0) then Ok mk_corrupt
+    else
+      let opcode := [Z.shiftr (Z.land word1 0xFF0000) 16; Z.shiftr (Z.land word1 0xFF00) 8;
+                     Z.land word1 0xFF] in
+      Ok (mk_entry function_offset (Some 0) (Some opcode) None).
+
+(* EHABIInfo.get_entry(n), first part: bounds check and the two index words *)
 Definition get_entry (img : list Z) (le : bool) (sh_offset sh_size n : Z) : res eh_out :=
   if num_entry sh_size <=? n then Err (EPy "IndexError") else
   let eh_index_entry_offset := sh_offset + n * gen_ehabi_index_entry_size in
   do s0 <- seek_chk img eh_index_entry_offset;
   do (word0, s1) <- p_u32 le s0;
   do (word1, _) <- p_u32 le s1;
-  if negb (Z.land word0 0x80000000 =? 0) then Ok mk_corrupt else
-  let function_offset := arm_expand_prel31 word0 (sh_offset + n * gen_ehabi_index_entry_size) in
-  if word1 =? 1 then Ok (mk_cantunwind function_offset)
-  else if Z.land word1 0x80000000 =? 0 then
-    let eh_table_offset :=
-      arm_expand_prel31 word1 (sh_offset + n * gen_ehabi_index_entry_size + 4) in
-    do t0 <- seek_chk img eh_table_offset;
-    do (tword0, t1) <- p_u32 le t0;
-    if Z.land tword0 0x80000000 =? 0 then
-      (* GenericEHABIEntry *)
-      Ok (mk_entry function_offset (Some (arm_expand_prel31 tword0 eh_table_offset)) None None)
-    else if negb (Z.land tword0 0x70000000 =? 0) then Ok mk_corrupt
-    else
-      let per_index := Z.land (Z.shiftr tword0 24) 0x7f in
-      if per_index =? 0 then
-        let opcode := [Z.shiftr (Z.land tword0 0xFF0000) 16; Z.shiftr (Z.land tword0 0xFF00) 8;
-                       Z.land tword0 0xFF] in
-        Ok (mk_entry function_offset (Some per_index) (Some opcode) None)
-      else if (per_index =? 1) || (per_index =? 2) then
-        let more_word := Z.land (Z.shiftr tword0 16) 0xff in
-        let opcode := [Z.land (Z.shiftr tword0 8) 0xff; Z.land (Z.shiftr tword0 0) 0xff] in
-        (* stream.seek(eh_table_offset + 4): where the first read stopped *)
-        do t4 <- seek_chk img (eh_table_offset + 4);
-        do more <- more_words le (Z.to_nat more_word) t4;
-        Ok (mk_entry function_offset (Some per_index) (Some (opcode ++ more)) (Some eh_table_offset))
-      else Ok mk_corrupt
-  else
-    if negb (Z.land word1 0x7f000000 =? 0) then Ok mk_corrupt
-    else
-      let opcode := [Z.shiftr (Z.land word1 0xFF0000) 16; Z.shiftr (Z.land word1 0xFF00) 8;
-                     Z.land word1 0xFF] in
-      Ok (mk_entry function_offset (Some 0) (Some opcode) None).
+  decode_index_words img le (sh_offset + n * gen_ehabi_index_entry_size) word0 word1.
 
 (* ---------------- decoder.py ---------------- *)
 
